@@ -515,7 +515,7 @@ func c09BuildArg(c c09ArgCase) *yang.Stmt {
 const c09ArgBatch = 16
 
 func (p *c09) NumCases(tier string, seed int64) int {
-	return len(c09TripleList) + len(c09SectionList) + (len(c09ArgList)+c09ArgBatch-1)/c09ArgBatch + tierN(tier, 0, 20000)
+	return len(c09TripleList) + len(c09SectionList) + (len(c09ArgList)+c09ArgBatch-1)/c09ArgBatch + tierN(tier, 2000, 200000)
 }
 
 var c09LocRe = regexp.MustCompile(`c09\.yang:(\d+):(\d+)`)
